@@ -238,3 +238,61 @@ Proof. induction l as [|x l IH]; simpl; [reflexivity|]. rewrite insert_by_perm. 
 
 Lemma sort_by_in {A} (lt : A -> A -> bool) l x : In x (sort_by lt l) <-> In x l.
 Proof. split; apply Permutation_in; [|symmetry]; apply sort_by_perm. Qed.
+
+(* ------------------------------------------------------------------ the strict width rule *)
+
+Lemma strip_suffix_app s l : strip_suffix s (l ++ s) = Some l.
+Proof.
+  unfold strip_suffix. rewrite app_length.
+  replace (length s <=? length l + length s) with true by (symmetry; apply Nat.leb_le; lia).
+  replace (length l + length s - length s) with (length l) by lia.
+  now rewrite skipn_app_exact, seq_eqb_refl, firstn_app_exact.
+Qed.
+
+Lemma wide_line_base base L b : base b = true -> wide_line base L b.
+Proof. intros H. exists b, []. simpl. rewrite app_nil_r. auto. Qed.
+
+Lemma wide_line_step base L l w : wide_line base L l -> In w L -> wide_line base L (l ++ sp :: w).
+Proof.
+  intros (b & ws & -> & Hb & Hws) Hw. exists b, (ws ++ [w]). repeat split; auto.
+  - rewrite flat_map_app. simpl. now rewrite app_nil_r, <- app_assoc.
+  - apply Forall_app. auto.
+Qed.
+
+Lemma wide_line_mono (base1 base2 : str -> bool) L1 L2 l :
+  (forall b, base1 b = true -> base2 b = true) -> incl L1 L2 -> wide_line base1 L1 l -> wide_line base2 L2 l.
+Proof.
+  intros Hb Hi (b & ws & -> & H1 & H2). exists b, ws. repeat split; auto.
+  eapply Forall_impl; [|exact H2]. intros w. apply Hi.
+Qed.
+
+Lemma wide_line_strip base L l : wide_line base L l -> forall fuel, length l <= fuel -> strip_ok fuel base L l = true.
+Proof.
+  intros (b & ws & -> & Hb & Hws). induction ws as [|w ws IH] using rev_ind; intros fuel Hf.
+  - simpl. rewrite app_nil_r. destruct fuel; simpl; now rewrite Hb.
+  - apply Forall_app in Hws as [Hws Hw]. inversion Hw; subst.
+    rewrite flat_map_app in *. simpl in *. rewrite app_nil_r in *. rewrite app_assoc in *.
+    rewrite app_length in Hf. simpl in Hf.
+    destruct fuel as [|f]; [lia|]. cbn [strip_ok]. apply orb_true_iff. right.
+    apply existsb_exists. exists w. split; [assumption|]. rewrite strip_suffix_app. apply IH; [exact Hws | lia].
+Qed.
+
+Lemma wide_line_line_ok mw L l : wide_line (fits mw) L l -> line_ok mw L l = true.
+Proof.
+  intros (b & ws & -> & Hb & Hws). unfold line_ok. apply orb_true_iff.
+  induction ws as [|w0 ws0 _] using rev_ind; [left; simpl; now rewrite app_nil_r|].
+  right. apply Forall_app in Hws as [_ Hw]. inversion Hw; subst.
+  unfold has_long. apply existsb_exists. exists w0. split; [assumption|].
+  rewrite flat_map_app. simpl. rewrite app_nil_r, app_assoc. apply contains_iff.
+  eexists. exists []. rewrite app_nil_r. change (sp :: w0) with ([sp] ++ w0). rewrite app_assoc. reflexivity.
+Qed.
+
+Lemma wide_line_pre_or_long pre L l : wide_line (fun b => seq_eqb b pre) L l -> l = pre \/ has_long L l = true.
+Proof.
+  intros (b & ws & -> & Hb & Hws). apply seq_eqb_true in Hb. subst b.
+  induction ws as [|w0 ws0 _] using rev_ind; [left; simpl; now rewrite app_nil_r|].
+  right. apply Forall_app in Hws as [_ Hw]. inversion Hw; subst.
+  unfold has_long. apply existsb_exists. exists w0. split; [assumption|].
+  rewrite flat_map_app. simpl. rewrite app_nil_r, app_assoc. apply contains_iff.
+  eexists. exists []. rewrite app_nil_r. change (sp :: w0) with ([sp] ++ w0). rewrite app_assoc. reflexivity.
+Qed.
